@@ -408,6 +408,28 @@ class FnDegrees:
         self._seen_sink = set()
         w = Walker(_Env(self))
         self.w = w
+
+        def headers(node, state):
+            """expressions that are evaluated but not assigned - branch conditions, loop ranges, the bounds of a slice that is
+            written to: a sum of quantities of different degree there (steps minus main time units) is a conflict all the same"""
+            exprs = []
+            if isinstance(node, (ast.If, ast.While)):
+                exprs.append(node.test)
+            elif isinstance(node, ast.For):
+                exprs.append(node.iter)
+            elif isinstance(node, (ast.Assign, ast.AugAssign)):
+                for t in au.stmt_targets(node):
+                    if isinstance(t, ast.Subscript):
+                        exprs += [b for sl in ([t.slice] if not isinstance(t.slice, ast.Tuple) else t.slice.elts) if isinstance(sl, ast.Slice)
+                                  for b in (sl.lower, sl.upper) if b is not None]
+            for e in exprs:
+                for x in ast.walk(e):
+                    if isinstance(x, ast.BinOp) and isinstance(x.op, (ast.Add, ast.Sub)):
+                        try:
+                            self.ev.ev(x, state)
+                        except Exception:
+                            pass
+        w.on_stmt = headers
         w.run_function(fn)
         self.exit_env = w.exit_state() or {}
 
